@@ -28,6 +28,18 @@ func getRequiredFloat(ctx *http.Request, name string, def string, err error) (fl
 	return iRes, err
 }
 
+// a nanosecond timestamp: an integer is read exactly (through a float64 today's values are rounded to 256 ns)
+func getRequiredNs(ctx *http.Request, name string, def string, err error) (int64, error) {
+	f, err := getRequiredFloat(ctx, name, def, err)
+	if err != nil {
+		return 0, err
+	}
+	if i, err := strconv.ParseInt(ctx.URL.Query().Get(name), 10, 64); err == nil {
+		return i, nil
+	}
+	return int64(f), nil
+}
+
 func getRequiredDuration(ctx *http.Request, name string, def string, err error) (float64, error) {
 	if err != nil {
 		return 0, err
